@@ -10,6 +10,29 @@ CLAIMED = {
             "bit for bit with variant lifetimes that differ in schedule (iterate / iterate_n / run under a virtual clock "
             "with stalls, forward and backward jumps / the library's own simulate_script loop), engine object, factory, "
             "process pre-history and observers. A clean batch is evidence, not proof.", "5 (C08)"),
+    "C01": ("Deterministic rate law: mass-action reactions plus Bernstein diffusion",
+            "per-step refinement of every simulated Euler history against an independent reference rate law; kinetics "
+            "functions evaluated as co-observers at visited states",
+            "Seeded exploration over random systems rendered under random units at every nesting level: every Euler step of "
+            "every simulated history must equal x + dt*f_ref(x) (rtol 1e-11 of |x|+dt*sum|terms|) with f_ref written "
+            "independently from the statement; compute_dspeciesdt / compute_dstatedt / make_dxdtf are evaluated at visited "
+            "states (plain differential evaluation, reported separately).", "5 (C01)"),
+    "C02": ("Every engine conserves every conservation law of the network",
+            "history oracle over recorded samples of seeded runs of all three engines under random batched schedules",
+            "Seeded exploration: integer left null space of the reference stoichiometry (exact Fraction elimination), "
+            "restricted to species without chemostated entries; sum_cells c.x must be constant over every recorded sample: "
+            "bitwise for the stochastic engines, 1e-9 relative for Euler.", "5 (C02)"),
+    "C03": ("Chemostated entries never change; everything else ignores the flag",
+            "invariant on every observed state and record of seeded histories (bit-constancy of flagged entries), masked Euler "
+            "refinement, model of hand-applied reactions between set-ups, kinetics co-observers",
+            "Seeded exploration with chemostat maps as the varied dimension, on all engines, with re-set-ups and "
+            "apply_reaction(update=True) in the history.", "5 (C03)"),
+    "C09": ("Sampling contract: which states are recorded, when, and in what shape",
+            "reference sampler model fed with the observed step history of seeded episodes (explicit sample() calls and calls "
+            "after completion interleaved) must predict exactly the recorded samples",
+            "Seeded exploration over policies, request lists (duplicates, clusters, empty, on-grid ties), t_max, units and "
+            "engines; the engine is stepped one iteration at a time and observed after every call; records, shapes, order and "
+            "unit scaling of the fetched trajectory are compared with the model's prediction.", "5 (C09)"),
 }
 
 NA = {
